@@ -551,3 +551,38 @@ Section Generic.
   Qed.
 
 End Generic.
+
+(* ---------- presentation lemmas used by C01.v ---------- *)
+
+Section Present.
+  Context {T : Type}.
+  Variable add : T -> T -> T.
+  Variable zero : T.
+  Variable C : nat.
+  Variable K : nat.
+
+  Notation N := (K - 1).
+
+  Lemma score_def_fold pssm s i :
+    score_def add zero N pssm s i =
+    fold_left add (map (fun j => nth (nth (i + j) s N) (nth j pssm []) zero) (seq 0 (length pssm))) zero.
+  Proof. unfold score_def. rewrite (score_terms_map zero K). reflexivity. Qed.
+
+  Lemma sub_rows_map {A} (f : nat -> A) R a b :
+    a <= b -> b <= R ->
+    firstn (b - a) (skipn a (map f (seq 0 R))) = map f (seq a (b - a)).
+  Proof.
+    intros Hab Hb.
+    assert (Hl : length (firstn (b - a) (skipn a (map f (seq 0 R)))) = b - a).
+    { rewrite firstn_length, skipn_length, map_length, seq_length. lia. }
+    destruct (Nat.eq_dec (b - a) 0) as [E|E].
+    - rewrite E. reflexivity.
+    - apply (nth_ext_len _ _ (f 0)).
+      + rewrite Hl, map_length, seq_length. reflexivity.
+      + intros i Hi. rewrite Hl in Hi.
+        rewrite nth_firstn_lt by auto. rewrite nth_skipn.
+        rewrite (map_nth_in _ _ _ 0) by (rewrite seq_length; lia).
+        rewrite (map_nth_in _ _ _ 0) by (rewrite seq_length; lia).
+        rewrite !seq_nth by lia. reflexivity.
+  Qed.
+End Present.
